@@ -1037,9 +1037,13 @@ def explore_F(ctx, rep, workers):
                    + 'Definition cases : list (plan * option (list (N * list N) * (bool * bool))) := [\n%s].\n' % body)
             shards.append((len(results) - 1, (i, pre, 'disagreeing (fun x => fcase_agrees %d%%nat (fst x) (snd x)) cases 0' % len(kinds))))
     disagree = dict((i, set()) for i in range(len(results)))
-    with concurrent.futures.ThreadPoolExecutor(max_workers=min(10, workers)) as ex:
-        for (ri, _sh), bad in zip(shards, ex.map(eval_shard, [sh for _, sh in shards])):
-            disagree[ri].update(bad)
+    try:
+        with concurrent.futures.ThreadPoolExecutor(max_workers=min(10, workers)) as ex:
+            for (ri, _sh), bad in zip(shards, ex.map(eval_shard, [sh for _, sh in shards])):
+                disagree[ri].update(bad)
+    except coqrun.CoqError as e:
+        # e.g. Proofs/SchedForger.vo not built: the tie is broken, the direct judgement below still runs
+        rep.corr_break('C17 machine F: the model could not be evaluated', 'Proofs/SchedForger.v', str(e)[-600:], '')
     for ri, (kinds, plans, obs, exhaustive) in enumerate(results):
         stats = {'plans': len(plans), 'valid': 0, 'nonsequential': 0, 'both_transform': 0,
                  'model_disagreements': len(disagree[ri]), 'preemption_positions': K,
